@@ -14,6 +14,9 @@ import Influx.Lemmas.TsmRoundtrip
 import Influx.Lemmas.TsmLookup
 import Influx.Lemmas.TsmTombBytes
 import Influx.Lemmas.TsmCrash
+import Influx.Lemmas.TsmVisible
+import Influx.Lemmas.TsmWriter
+import Influx.Lemmas.TsmSpecTs
 
 namespace Influx.Props.C08
 open Influx.Tsm Influx.Spec.C08
@@ -36,6 +39,21 @@ theorem be_roundtrip (n v : Nat) : unbe (be n v) = v % 256 ^ n := unbe_be n v
 theorem C08_index_roundtrip (kes : List KeyEntry) (h : ∀ ke ∈ kes, WFKeyEntry ke) :
     decIndex ((kes.flatMap encKeyEntry).length + 1) (kes.flatMap encKeyEntry) = some kes :=
   decIndex_enc kes h _ (by have := flatMap_length_ge kes; omega)
+
+/-- **The writer produces that file.**  The stateful writer (`tsmWriter.WriteBlock`,
+    `directIndex.Add/flush`, `WriteIndex`, as the Go code has them) run on the blocks of
+    non-empty keys in strictly increasing order, 1..65534 acceptable blocks per key in
+    min-time order, answers ok to every call and writes exactly the serialised bytes. -/
+theorem C08_writer (crc : Bytes → Nat) (kbs : List (Key × List Blk)) (hw : WFW kbs) (hne : kbs ≠ []) :
+    (∀ a ∈ (writeAll crc kbs).2, a = WAns.ok) ∧
+    writeIndex (writeAll crc kbs).1 = (.ok, serialise crc kbs) := writeAll_serialise crc kbs hw hne
+
+/-- **readFile (writeFile kbs) = kbs**: what the writer wrote parses back to the keys, types
+    and index entries of `kbs`. -/
+theorem C08_write_read (crc : Bytes → Nat) (kbs : List (Key × List Blk)) (hw : WFW kbs) (hf : WFFile kbs) :
+    parseFile (writeIndex (writeAll crc kbs).1).2 = .ok (layout 5 kbs) := by
+  rw [(writeAll_serialise crc kbs hw hf.ne).2]
+  exact parseFile_serialise crc kbs hf
 
 /-! ## 2. lookups agree with the content -/
 
@@ -60,7 +78,38 @@ theorem C08_type (ix : Index) (h : IndexInv ix) (key : Key) :
 /-- the index built by the reader from a strictly sorted key list satisfies the invariant -/
 theorem C08_open_inv (kes : List KeyEntry) (hs : SortedKE kes) : IndexInv (mkIndex kes) := mkIndex_inv kes hs
 
-/-! ## 3. the tombstone file -/
+/-! ## 3. tombstones hide exactly the requested ranges
+
+  `H` is the list of (key, lo, hi) requests applied to the index (`Delete(keys)` applies
+  (k, MinInt64, MaxInt64) for every k). `TInv ix H` holds for a freshly opened index with
+  `H = []` and is kept by every `Delete` / `DeleteRange`, whatever the keys and ranges. -/
+
+theorem C08_open_tinv (kes : List KeyEntry) (hs : SortedKE kes) (hwf : ∀ ke ∈ kes, WFKE ke) :
+    TInv (mkIndex kes) [] := TInv_mkIndex kes hs hwf
+
+theorem C08_deleteRange_inv (ix : Index) (H : Hist) (h : TInv ix H) (keys : List Key) (lo hi : Int) :
+    TInv (deleteRange ix keys lo hi) (H ++ reqs keys lo hi) := TInv_deleteRange ix H h keys lo hi
+
+theorem C08_delete_inv (ix : Index) (H : Hist) (h : TInv ix H) (keys : List Key) :
+    TInv (delete ix keys) (H ++ reqs keys minInt64 maxInt64) := TInv_delete ix H h keys
+
+/-- **hidden iff covered**: `ContainsValue k t` holds exactly when some block of `k` in the
+    file contains `t` and no applied request for `k` covers `t`. -/
+theorem C08_hidden_iff_covered (ix : Index) (H : Hist) (h : TInv ix H) (k : Key) (t : Int) :
+    containsValue ix k t = true ↔ hasPoint ix.all k t ∧ ¬ coveredH H k t := containsValue_iff ix H h k t
+
+/-- **never over-deletes**: a key of the file that is no longer in the index (also when it
+    was removed because adjacent / overlapping tombstones line up over its span) has every
+    time of its span covered by applied requests for that key. -/
+theorem C08_never_over_deletes (ix : Index) (H : Hist) (h : TInv ix H) (ke : KeyEntry) (hke : ke ∈ ix.all)
+    (hgone : contains ix ke.key = false) (hne : ke.entries ≠ []) :
+    ∀ t, spanIn ke t → coveredH H ke.key t := absent_covered ix H h ke hke hgone hne
+
+/-- `Delete(keys)` removes exactly those keys from the index -/
+theorem C08_delete_exact (ix : Index) (h : IndexInv ix) (keys : List Key) :
+    (delete ix keys).live = ix.live.filter fun ke => !decide (ke.key ∈ keys) := delete_live ix h keys
+
+/-! ## 4. the tombstone file -/
 
 /-- **Walk reads back what was committed**, member after member, byte level. -/
 theorem C08_walk_roundtrip (G : Gzip) (ms : List (List Tombstone)) (h : ∀ m ∈ ms, ∀ t ∈ m, WFTomb t) :
@@ -103,7 +152,31 @@ theorem C08_crash_walk (G : Gzip) (tomb tmp : String) (hne : tomb ≠ tmp) (dir0
     rw [h1, hch]
     exact walk_commit G ms new h hn
 
-/-! ## 4. the statement checker on the model, and where the full statement fails -/
+/-! ## 5. the statement checker on the model, and where the full statement fails -/
+
+/-- **The statement checker accepts the model** on every sequence of stand-alone
+    Tombstoner operations (new object, Add, AddRange, Flush, Rollback, Delete, Walk,
+    HasTombstones): a fresh Walk yields exactly the committed tombstones in order, a
+    Walk of the live object yields a suffix of them.  PARTIAL: the hypothesis restricts
+    the operations to the tombstoner's; for writer/reader operations the checker is
+    evaluated on the real implementation's answers at run time and the model is proved
+    against list-level specifications in §1–§4 instead. -/
+theorem C08_holdsOn_partial (crc : Bytes → Nat) (ops : List Op) (h : ∀ op ∈ ops, isTsOp op = true) :
+    holdsOn (traceOf crc ops) = true := by
+  unfold holdsOn
+  rw [run_eq_runFrom]
+  have := ts_trace ops h (State.init crc) {} 0
+    ⟨rfl, rfl, fun _ => rfl, fun o ho => by simp [State.init] at ho, fun _ o p ho => by simp [State.init] at ho⟩
+  unfold traceOf
+  rw [this]; rfl
+
+-- the hypothesis is met by non-trivial sequences (and the checker really looks at them)
+example : holdsOn (traceOf (fun _ => 0)
+    [.tsNew, .tsAddRange [[97], [98]] 1 5, .tsFlush, .tsAdd [[99]], .tsFlush, .tsWalk, .tsWalk, .tsWalkFresh]) = true := by
+  decide
+example : holdsOn [(.tsNew, .ok), (.tsAddRange [[97]] 1 5, .ok), (.tsFlush, .ok), (.tsWalkFresh, .tombs [])] = false := by
+  decide
+
 
 /-- The full statement (every trace of the model satisfies the statement checker) is FALSE
     of the code: blocks written under the empty key are not a key of the file
